@@ -335,6 +335,13 @@ fn sequence(rng: &mut Rng, n_ops: usize, dir: &std::path::Path, sink: &mut Sink)
             | (PrimOut::Call { index, args }, _) => {
                 for v in args {
                     if let Some((k, n)) = handle_of(v) {
+                        // the property's own oracle: an identity once handed out is never handed out
+                        // again for another capability (a closed handle stays closed for good)
+                        let issued = if k == 'r' { &world.readers } else { &world.writers };
+                        let opening = matches!(role, Role::FsOpenReader | Role::FsCreateWriter | Role::FsAppendWriter);
+                        if opening && issued.contains(&n) {
+                            sink.violation("c06-handle-identity-reissued", serde_json::json!({"role": role.source_name(), "handle": format!("{k}:{n}"), "operations_so_far": ops, "answers_so_far": outs}));
+                        }
                         if k == 'r' { caps.readers.insert(n, v.clone()); world.readers.push(n); } else { caps.writers.insert(n, v.clone()); world.writers.push(n); }
                     }
                 }
